@@ -9,7 +9,7 @@
    the k best classes; contiguous S axis (Lib/Contig.v): axis = l1 ++ mid ++ l2 with mid and S having the same
    elements; complete_on axis o: NoDup (concat o), all classes non-empty, same alternatives as the axis. *)
 From Coq Require Import List NArith Bool Permutation.
-From PrefVerif Require Import Lib.Val Lib.Contig Model.SP Proofs.SP.
+From PrefVerif Require Import Lib.Val Lib.Contig Model.SP Proofs.SP Proofs.SPILP.
 Import ListNotations.
 
 (* ---- clause 1: is_single_peaked_axis is True exactly when, for every voter and every k, the union of the voter's
@@ -61,6 +61,22 @@ Theorem sp_c1p_decide_correct : forall (rows : list (list bool)) (nc : nat),
                Forall (fun row => ones_consec (map (fun j => nth j row false) perm)) rows.
 Proof. exact Proofs.SP.sp_c1p_decide_correct. Qed.
 Print Assumptions sp_c1p_decide_correct.
+
+(* the integer programme of is_single_peaked_ILP (Proofs/SPILP.v): the totality, transitivity and consecutive-ones
+   constraints over the 0/1 variables left_of_vars are satisfiable iff the profile is single-peaked; i.e. a solver
+   that reports feasibility correctly makes is_single_peaked_ILP decide the property (CBC itself, the position
+   variables and the reading of the axis are not modelled: the returned axis goes through check_axis_correct) *)
+Theorem ilp_encoding_sound : forall (alts : list N) (p : list order),
+  NoDup alts -> Forall (complete_on alts) p ->
+  ((exists L : nat -> nat -> bool,
+      (forall a1 a2, a1 < a2 -> a2 < length alts -> b2n (L a1 a2) + b2n (L a2 a1) = 1) /\
+      ilp_trans (length alts) L /\
+      Forall (ilp_row L) (sp_matrix alts p))
+   <->
+   exists axis, Permutation alts axis /\
+                forall o, In o p -> forall k, contiguous (concat (firstn k o)) axis).
+Proof. exact Proofs.SPILP.ilp_encoding_sound. Qed.
+Print Assumptions ilp_encoding_sound.
 
 Theorem decider_models_correct : forall (d : ord_dt) (alts : list N) (p : list order),
   d = DTsoc \/ d = DTtoc -> NoDup alts -> Forall (complete_on alts) p ->
